@@ -278,7 +278,8 @@ def run_check(modname, tier, seed, quiet=False):
             matched.append(v)
         else:
             unlisted.append(v)
-    rdir = os.path.join(VERIF, "replays", pid)
+    outroot = os.environ.get("VERIF_OUT", VERIF)  # mutant evaluations write elsewhere
+    rdir = os.path.join(outroot, "replays", pid)
     for v in unlisted:
         os.makedirs(rdir, exist_ok=True)
         path = os.path.join(rdir, v["key"] + ".json")
@@ -318,8 +319,8 @@ def run_check(modname, tier, seed, quiet=False):
         wall_s=round(wall, 2),
         violations=len(unlisted),
     )
-    os.makedirs(os.path.join(VERIF, "evidence"), exist_ok=True)
-    with open(os.path.join(VERIF, "evidence", pid + ".json"), "w") as f:
+    os.makedirs(os.path.join(outroot, "evidence"), exist_ok=True)
+    with open(os.path.join(outroot, "evidence", pid + ".json"), "w") as f:
         json.dump(ev, f, indent=1, default=str)
 
     out = sys.stdout
